@@ -643,7 +643,25 @@ pub fn g_cf(ch: &mut Chooser, opts: &CfOpts) -> CfProg {
                 p.b.emit(asm::CALLDATASIZE);
             }
         };
-        match ch.below(16) {
+        match ch.below(17) {
+            16 => {
+                // PC-relative: the target is computed from the PC instruction's own offset
+                let t = if opts.back_edges || bi + 1 >= nblocks { ch.below(nblocks) } else { ch.range(bi + 1, nblocks - 1) };
+                let t = if !opts.back_edges && t <= bi { nblocks - 1 } else { t };
+                push_cond(&mut p);
+                let m = p.b.label();
+                p.b.ins.push(Ins::Mark(m));
+                p.b.emit(asm::PC);
+                p.b.ins.push(Ins::PushLabelDiff(block_labels[t], m));
+                p.b.depth += 1;
+                p.b.emit(asm::ADD);
+                emit_jump(&mut p, ch);
+                if t <= bi {
+                    p.has_back_edge = true;
+                    p.features.push("back-edge");
+                }
+                p.features.push("pc-relative-target");
+            }
             0 | 1 => {} // fall through
             2..=4 => {
                 // valid forward target
